@@ -87,3 +87,5 @@ func TestC12Hist(t *testing.T) { core.Run(t, "C12", GenHVerify(6), ExecH) }
 func TestC13Start(t *testing.T) { core.Run(t, "C13", GenSt, ExecSt) }
 
 func TestC14Hist(t *testing.T) { core.Run(t, "C14", GenH14, ExecH) }
+func TestC08Start(t *testing.T) { core.Run(t, "C08", GenPDStart("C08"), ExecPDStart) }
+func TestC09Start(t *testing.T) { core.Run(t, "C09", GenPDStart("C09"), ExecPDStart) }
